@@ -38,13 +38,14 @@ type c11Case struct {
 
 // the 4th "type" is the curried one-argument form over *A: its argument type list [*A] is a proper
 // prefix of the two-argument list [*A *A]
-var c11Types = []string{"*A", "*B", "*C", "*A"}
+// the 5th "type" is only known after a first generation pass: the arguments are results of deriveKeys
+var c11Types = []string{"*A", "*B", "*C", "*A", "[]string<-deriveKeys"}
 var c11Names = [][]string{{"deriveEqual", "deriveEqualX", "deriveEqual_"}, {"deriveHash", "deriveHashX", "deriveHash_"}}
 var c11NamesReserved = [][]string{{"deriveEqual", "deriveEqualX", "deriveEqualY"}, {"deriveHash", "deriveHashX", "deriveHashY"}}
 
 var c11NamesBare = [][]string{{"deriveEqualZ", "deriveEqualX", "deriveEqualY"}, {"deriveHashZ", "deriveHashX", "deriveHashY"}}
 
-var c11TypesImported = []string{"*ax.T", "*bx.T", "*C", "*ax.T"}
+var c11TypesImported = []string{"*ax.T", "*bx.T", "*C", "*ax.T", "[]string<-deriveKeys"}
 
 func (cs *c11Case) types() []string {
 	if cs.Alphabet == 1 {
@@ -111,7 +112,11 @@ func (cs *c11Case) writeCalls(sb *strings.Builder) {
 	for i, cl := range cs.Calls {
 		T := cs.types()[cl.Type]
 		n := cs.names()[cl.Plugin][cl.Name]
-		if cl.Plugin == 0 && cl.Type == 3 {
+		if cl.Type == 4 && cl.Plugin == 0 {
+			fmt.Fprintf(sb, "func use%d(m1, m2 map[string]int) bool { return %s(deriveKeys(m1), deriveKeys(m2)) }\n\n", i, n)
+		} else if cl.Type == 4 {
+			fmt.Fprintf(sb, "func use%d(m1 map[string]int) uint64 { return %s(deriveKeys(m1)) }\n\n", i, n)
+		} else if cl.Plugin == 0 && cl.Type == 3 {
 			fmt.Fprintf(sb, "func use%d(a, b %s) bool { return %s(a)(b) }\n\n", i, T, n)
 		} else if cl.Plugin == 0 {
 			fmt.Fprintf(sb, "func use%d(a, b %s) bool { return %s(a, b) }\n\n", i, T, n)
@@ -193,6 +198,14 @@ func c11Cases(c *Ctx) []c11Case {
 		}
 	}
 	rec(nil, 3)
+	// pairs and triples in which one call has arguments that only type after a first generation pass
+	for n1 := 0; n1 < 3; n1++ {
+		for n2 := 0; n2 < 3; n2++ {
+			for t := 0; t < 4; t++ {
+				seqs = append(seqs, []c11Call{{0, n1, 4}, {0, n2, t}}, []c11Call{{0, n2, t}, {0, n1, 4}}, []c11Call{{0, n1, 4}, {0, n2, 4}})
+			}
+		}
+	}
 	r := rand.New(rand.NewSource(c.Seed*53 + 11))
 	// random: two plugins, 4..6 calls
 	nrand := tierN(c, 80, 1500)
@@ -201,7 +214,11 @@ func c11Cases(c *Ctx) []c11Case {
 		var s []c11Call
 		for j := 0; j < k; j++ {
 			pl := r.Intn(2)
-			s = append(s, c11Call{pl, r.Intn(3), r.Intn(3 + (1 - pl))})
+			ty := r.Intn(3 + (1 - pl))
+			if r.Intn(5) == 0 {
+				ty = 4 // arguments that only type after a first pass
+			}
+			s = append(s, c11Call{pl, r.Intn(3), ty})
 		}
 		seqs = append(seqs, s)
 	}
@@ -220,7 +237,7 @@ func c11Cases(c *Ctx) []c11Case {
 							mod = 39 // the added dimensions are sampled more thinly
 						}
 						h := (si*7 + fi*3 + res + alpha*5 + int(c.Seed)) % mod
-						if h != 0 && !(len(s) <= 2 && res == 0 && alpha == 0) && !(len(s) == 2 && res == 0 && (si+fi)%4 == 0) {
+						if h != 0 && !(len(s) <= 2 && res == 0 && alpha == 0) && !(len(s) == 2 && res == 0 && (si+fi)%4 == 0) && !(len(s) == 2 && res == 0 && alpha == 0 && (s[0].Type == 4 || s[1].Type == 4) && (si+fi)%2 == 0) {
 							continue
 						}
 					} else if (res > 0 || alpha > 0) && (si+res+alpha)%3 != 0 {
@@ -281,9 +298,10 @@ func normaliseParamNames(s string) string { return s } // generated functions of
 
 func checkC11(c *Ctx) {
 	c.Anchors = []string{"derive"}
-	c.Run.Rule = "cases = packages of derive calls built from an alphabet of 3 names x 3 pairwise non-assignable argument types per plugin: exhaustively all ordered sequences of k<=3 calls for one plugin, plus seeded random sequences of 4-6 calls over two plugins, each under all four flag combinations, with and without hand-written functions occupying would-be helper names. Oracle: exit status vs the conflict/duplicate predicate computed from the construction (where the statement fixes it); after any successful run the package must compile (every call binds to a function accepting its arguments, no redeclaration of user names), and after -dedup no two generated functions of one plugin have the same signature. distinct_nontrivial = distinct (flags, conflict?, duplicate?, #calls, reserved?, outcome)"
+	c.Run.Rule = "cases = packages of derive calls built from an alphabet of 3 names x 3 pairwise non-assignable argument types per plugin: exhaustively all ordered sequences of k<=3 calls for one plugin, plus seeded random sequences of 4-6 calls over two plugins, each under all four flag combinations, with and without hand-written functions occupying would-be helper names; plus, for each of the 33 plugins, one conflict and one duplicate (call sites in two files) under all four flag combinations. Oracle: exit status vs the conflict/duplicate predicate computed from the construction (where the statement fixes it); after any successful run the package must compile (every call binds to a function accepting its arguments, no redeclaration of user names), and after -dedup no two generated functions of one plugin have the same signature. distinct_nontrivial = distinct (flags, conflict?, duplicate?, #calls, reserved?, outcome)"
 	c.Run.Assume = []string{"mixed conflict+duplicate packages under a single flag get only the soundness clauses (the statement fixes no exit status)", "the three argument types are pairwise non-assignable, so 'compiles' implies 'bound to a function for exactly its argument types'"}
 	c.Run.Floor = 12
+	c.c11PluginSweep()
 	cases := c11Cases(c)
 	type res struct {
 		g     grun.Result
@@ -363,6 +381,173 @@ func checkC11(c *Ctx) {
 		if ns < 6 && (cs.Conflict || cs.Dup) {
 			ns++
 			c.Run.Sample(map[string]any{"case": cs.desc(), "conflict": cs.Conflict, "duplicate": cs.Dup, "expected": want, "exit": o.g.Exit})
+		}
+	}
+}
+
+// ---- every plugin once: one conflict and one duplicate under all four flag sets ---------------------
+
+// c11PluginCalls: per plugin, declarations and two call expressions with pairwise non-assignable
+// argument type lists (%s = the function name).
+type c11Plugin struct {
+	name  string
+	decls string
+	callA string // argument list A
+	callB string // argument list B
+}
+
+var c11Plugins = []c11Plugin{
+	{"Equal", "", "%s(pa, pa)", "%s(pb, pb)"},
+	{"Compare", "", "%s(pa, pa)", "%s(pb, pb)"},
+	{"Hash", "", "%s(pa)", "%s(pb)"},
+	{"Clone", "", "%s(pa)", "%s(pb)"},
+	{"GoString", "", "%s(pa)", "%s(pb)"},
+	{"DeepCopy", "", "%s(pa, pa)", "%s(pb, pb)"},
+	{"Keys", "", "%s(msi)", "%s(mis)"},
+	{"Sort", "", "%s(li)", "%s(ls)"},
+	{"Min", "", "%s(li, 0)", "%s(ls, \"\")"},
+	{"Max", "", "%s(li, 0)", "%s(ls, \"\")"},
+	{"Contains", "", "%s(li, 1)", "%s(ls, \"\")"},
+	{"Unique", "", "%s(li)", "%s(ls)"},
+	{"Set", "", "%s(li)", "%s(ls)"},
+	{"Union", "", "%s(li, li)", "%s(ls, ls)"},
+	{"Intersect", "", "%s(li, li)", "%s(ls, ls)"},
+	{"Filter", "", "%s(predI, li)", "%s(predS, ls)"},
+	{"TakeWhile", "", "%s(predI, li)", "%s(predS, ls)"},
+	{"All", "", "%s(predI, li)", "%s(predS, ls)"},
+	{"Any", "", "%s(predI, li)", "%s(predS, ls)"},
+	{"Fmap", "", "%s(itos, li)", "%s(stoi, ls)"},
+	{"Join", "", "%s(lli)", "%s(lls)"},
+	{"Traverse", "", "%s(itosE, li)", "%s(stoiE, ls)"},
+	{"Compose", "", "%s(getI, itosE)", "%s(getS, stoiE)"},
+	{"ToError", "", "%s(eBad, itosB)", "%s(eBad, stoiB)"},
+	{"Curry", "", "%s(fis)", "%s(fsi)"},
+	{"Uncurry", "", "%s(cis)", "%s(csi)"},
+	{"Flip", "", "%s(fis)", "%s(fsi)"},
+	{"Apply", "", "%s(fis, \"x\")", "%s(fsi, 1)"},
+	{"Tuple", "", "%s(1, \"a\")", "%s(\"a\", 1)"},
+	{"Mem", "", "%s(itos)", "%s(stoi)"},
+	{"Do", "", "%s(getI, getS)", "%s(getS, getI)"},
+	{"Dup", "", "%s(ci)", "%s(cs)"},
+	{"Pipeline", "", "%s(itocs, stocb)", "%s(stoci, itocb)"},
+}
+
+const c11SweepDecls = `type A struct{ X int }
+
+type B struct{ Y string }
+
+var (
+	pa  *A
+	pb  *B
+	msi map[string]int
+	mis map[int]string
+	li  []int
+	ls  []string
+	lli [][]int
+	lls [][]string
+	ci  chan int
+	cs  chan string
+	eBad error
+)
+
+func predI(x int) bool                { return x > 0 }
+func predS(x string) bool             { return x != "" }
+func itos(x int) string               { return "" }
+func stoi(x string) int               { return 0 }
+func itosE(x int) (string, error)     { return "", nil }
+func stoiE(x string) (int, error)     { return 0, nil }
+func itosB(x int) (string, bool)      { return "", true }
+func stoiB(x string) (int, bool)      { return 0, true }
+func getI() (int, error)              { return 0, nil }
+func getS() (string, error)           { return "", nil }
+func fis(a int, b string) bool        { return true }
+func fsi(a string, b int) bool        { return true }
+func cis(a int) func(string) bool     { return func(string) bool { return true } }
+func csi(a string) func(int) bool     { return func(int) bool { return true } }
+func itocs(x int) <-chan string       { return nil }
+func stocb(x string) <-chan bool      { return nil }
+func stoci(x string) <-chan int       { return nil }
+func itocb(x int) <-chan bool         { return nil }
+`
+
+// c11PluginSweep: for every plugin a conflict (one name, argument lists A and B) and a duplicate (two
+// names, list A twice; the two call sites in different files), under all four flag combinations.
+func (c *Ctx) c11PluginSweep() {
+	type job struct {
+		pl    c11Plugin
+		kind  string // conflict | duplicate
+		flags []string
+	}
+	flagSets := [][]string{nil, {"-autoname"}, {"-dedup"}, {"-autoname", "-dedup"}}
+	var jobs []job
+	for _, pl := range c11Plugins {
+		for _, k := range []string{"conflict", "duplicate"} {
+			for _, fl := range flagSets {
+				jobs = append(jobs, job{pl, k, fl})
+			}
+		}
+	}
+	type res struct {
+		g     grun.Result
+		build grun.Result
+		files map[string]string
+	}
+	outs := make([]res, len(jobs))
+	parallel(len(jobs), 14, func(i int) {
+		j := jobs[i]
+		n1, n2, c2 := "derive"+j.pl.name, "derive"+j.pl.name, j.pl.callB
+		if j.kind == "duplicate" {
+			n2, c2 = "derive"+j.pl.name+"Other", j.pl.callA
+		}
+		files := map[string]string{"go.mod": pgen.GoMod,
+			"p/decls.go": "package p\n\n" + c11SweepDecls,
+			"p/use1.go":  "package p\n\nfunc use1() { " + fmt.Sprintf(j.pl.callA, n1) + " }\n",
+			"p/use2.go":  "package p\n\nfunc use2() { " + fmt.Sprintf(c2, n2) + " }\n"}
+		dir := c.Env.Dir("c11-sweep")
+		defer os.RemoveAll(dir)
+		grun.WriteTree(dir, files)
+		g := c.Goderive(dir, append(append([]string{}, j.flags...), "./p"))
+		r := res{g: g, files: files}
+		if g.Exit == 0 && g.Crash == "" {
+			r.build = c.Go(dir, "build", "./p")
+			// the tree as goderive left it (renamed call sites included)
+			for _, f := range []string{"p/use1.go", "p/use2.go", "p/derived.gen.go"} {
+				if b, err := os.ReadFile(filepath.Join(dir, f)); err == nil {
+					r.files["after/"+f] = string(b)
+				}
+			}
+		}
+		outs[i] = r
+	})
+	for i, j := range jobs {
+		o := outs[i]
+		c.Run.Eval(1)
+		auto, dedup := false, false
+		for _, f := range j.flags {
+			auto = auto || f == "-autoname"
+			dedup = dedup || f == "-dedup"
+		}
+		want := -1 // must fail
+		if auto && dedup || j.kind == "conflict" && auto || j.kind == "duplicate" && dedup {
+			want = 1
+		}
+		class := fmt.Sprintf("plugin=%s|%s|flags=%s", strings.ToLower(j.pl.name), j.kind, strings.Join(j.flags, ""))
+		viol := func(sym, detail string) {
+			c.Run.Violate(report.Violation{Key: class + "|" + sym, Summary: fmt.Sprintf("derive%s: one %s under flags %v: %s", j.pl.name, j.kind, j.flags, sym), Detail: detail,
+				Files: mapWithPrefix(o.files, "tree/"), Replay: replayScript(strings.Join(append(append([]string{}, j.flags...), "./p"), " "), "go build ./p; echo build=$?\nexit 0")})
+		}
+		switch {
+		case o.g.Crash != "":
+			viol("crash", trunc(o.g.Stderr, 1500))
+		case want == 1 && o.g.Exit != 0:
+			viol("rejected-but-must-be-accepted", "stderr: "+trunc(o.g.Stderr, 600))
+		case want == -1 && o.g.Exit == 0:
+			viol("accepted-but-must-be-rejected", "stderr: "+trunc(o.g.Stderr, 600))
+		case o.g.Exit == 0 && o.build.Exit != 0:
+			viol("accepted-but-does-not-compile", trunc(o.build.Stderr+o.build.Stdout, 1200)+"\ngoderive stderr: "+trunc(o.g.Stderr, 400))
+		default:
+			c.Run.Distinct(class)
+			c.Run.Count("plugin_sweep_cases", 1)
 		}
 	}
 }
